@@ -62,7 +62,7 @@ class VoroHooks(Hooks):
         return None
 
 
-def pairwise_matrix(ctx, repo, pid, dim):
+def pairwise_matrix(ctx, repo, pid, dim, extra_kwargs=None):
     """MIRROR + LIN on AbstractVoronoi._calculate_N_N_array (the full-sphere pairwise matrices), for all three properties"""
     ci = repo.cls(VO, "RotobjVoronoi")
     fi = ci.find_method("_calculate_N_N_array")
@@ -78,7 +78,10 @@ def pairwise_matrix(ctx, repo, pid, dim):
         o.attrs["reduced_regions"] = ListV([Loop(i, N, [Elem(Term("region", [Num(Poly.atom(i))]))])])
         o.attrs["regions"] = o.attrs["reduced_regions"]
         o.attrs["centers"] = T.mat(interp, "C", N, Poly.const(dim))
-        res = interp.call_function(fi, [], {"sel_property": Const(prop)}, self_obj=o)
+        kwargs_ = {"sel_property": Const(prop)}
+        for k_, v_ in (extra_kwargs or {}).items():
+            kwargs_[k_] = Const(v_) if v_ is not None else Term("opaque_option", [Const(k_)])
+        res = interp.call_function(fi, [], kwargs_, self_obj=o)
         for f in interp.functions_entered:
             ctx.analysed(f)
         tag = f"{pid}.pair{dim}d.{prop}"
